@@ -42,6 +42,9 @@ type mitem struct {
 	flag bool
 }
 
+// valueFirst makes the map-entry callbacks write the value before the key.
+var valueFirst bool
+
 // emit drives the repository's encoder.
 func emit(e *cbor.Encoder, m *mitem) error {
 	switch m.k {
@@ -71,11 +74,19 @@ func emit(e *cbor.Encoder, m *mitem) error {
 		for i := range m.keys {
 			i := i
 			mes = append(mes, cbor.GenerateMapEntry(func(ke, ve *cbor.Encoder) {
-				if err := emit(ke, m.keys[i]); err != nil {
-					inner = err
+				// the two encoders of an entry are independent: a caller may fill in the value before the key
+				if !valueFirst {
+					if err := emit(ke, m.keys[i]); err != nil {
+						inner = err
+					}
 				}
 				for _, v := range m.vals[i] {
 					if err := emit(ve, v); err != nil {
+						inner = err
+					}
+				}
+				if valueFirst {
+					if err := emit(ke, m.keys[i]); err != nil {
 						inner = err
 					}
 				}
@@ -226,6 +237,7 @@ func judge(r *mon.Run, seq []*mitem, class string, sampleEvery int) {
 		}
 		want = append(want, b...)
 	}
+	valueFirst = nCase%3 == 2
 	p, pv := r.Call(id, nil, func() {
 		e := cbor.NewEncoder(&buf)
 		for _, m := range seq {
@@ -235,6 +247,7 @@ func judge(r *mon.Run, seq []*mitem, class string, sampleEvery int) {
 		}
 	})
 	nCase++
+	valueFirst = false
 	got := buf.Bytes()
 	key := fmt.Sprintf("enc:%s:%s", class, mon.Short(want))
 	det := map[string]any{"class": class, "got_hex": mon.Hex(got), "want_hex": mon.Hex(want), "model": describe(seq)}
@@ -473,7 +486,7 @@ func run(r *mon.Run) {
 		I(-1), I(-25), T("é"), T("z")}
 	nSets := 60
 	if r.Thorough {
-		nSets = 600
+		nSets = 3000
 	}
 	for s := 0; s < nSets; s++ {
 		if !r.Mine(s) {
@@ -604,7 +617,7 @@ func run(r *mon.Run) {
 	// seeded random nested call sequences
 	nSeq := 10000
 	if r.Thorough {
-		nSeq = 600000
+		nSeq = 6000000
 	}
 	for i := 0; i < nSeq; i++ {
 		if !r.Mine(i) {
